@@ -12,6 +12,9 @@
 #ifndef NEVT
   #define NEVT 2
 #endif
+#ifndef NDISPMAX
+  #define NDISPMAX (NEVT + 6)
+#endif
 struct HErr : std::exception { char const* what() const noexcept override { return "herr"; } };
 static uint32_t g_notes; static uint32_t g_note_std;
 static void notifier(std::string const& s) { g_notes++; if (s.size() == 4 && s[0] == 'h') g_note_std++; vobs(s.size()); }
@@ -27,13 +30,14 @@ static void maybe_throw(uint32_t site)
 }
 
 extern "C" void vh_throw(uint32_t site);
-static uint64_t g_disp[NEVT + 2]; static uint32_t g_ndisp; static uint32_t g_mode; static uint32_t g_cur; static uint32_t g_evt;
+static uint64_t g_disp[NDISPMAX]; static uint32_t g_ndisp; static uint32_t g_mode; static uint32_t g_cur; static uint32_t g_evt;
 extern "C" void vh_dispatch(BackendWorker* w, TransitEvent const& te, std::string_view const& tid, std::string_view const& tn)
 {
-  VASSUME(g_ndisp < NEVT + 2);
+  VASSUME(g_ndisp < NDISPMAX);
   uint32_t k = g_ndisp;
   g_disp[g_ndisp] = te.timestamp; g_ndisp++; vobs(te.timestamp);
   if (g_mode == 0) { maybe_throw(g_evt); return; }
+  if (g_mode == 2) { maybe_throw(k); return; }
   // h_sinks: the REAL per-sink loop (filters, formatter choice, virtual write_log) with sinks that throw
   g_cur = k;
   std::string_view d{"D"}, c{"C"}, msg{"m"};
@@ -286,4 +290,49 @@ extern "C" void h_format_named()
   try { bw()._populate_formatted_named_args(&te, *names); } catch (...) { escaped = true; }
   VASSERT(!escaped);
   VWITNESS(g_fault[0] == 2);
+}
+
+// ---- flushing a backtrace while a sink throws: the REAL _process_transit_event -> BacktraceStorage::process ->
+// per-statement dispatch (hook that may throw).  Every stored statement is handed out exactly once - never again at the
+// next flush - and a failing one does not take the others with it.
+#include "quill/backend/BacktraceStorage.h"
+union BSSlot { BacktraceStorage b; BSSlot() {} ~BSSlot() {} };
+static BSSlot g_bs;
+extern "C" void h_backtrace_flush()
+{
+  light_worker();
+  L* l = bk_init_logger(0, 0);
+  bk_init_context(0, 0); static_context_cache(1); bk_static_ring(0);
+  BacktraceStorage* bs = new (&g_bs.b) BacktraceStorage();
+  bs->set_capacity(2);
+  std::string_view tid{"1"}, tn{"t"};
+  for (uint32_t k = 0; k < 2; k++)
+  {
+    TransitEvent t; t.timestamp = 100 + k; t.macro_metadata = &MD_LOG; t.logger_base = l;
+    bs->store(std::move(t), tid, tn);
+  }
+  new (&l->backtrace_storage) std::shared_ptr<BacktraceStorage>(bs, nodel<BacktraceStorage>);
+  *reinterpret_cast<LogLevel*>(&l->backtrace_flush_level) = LogLevel::Info;       // MD_LOG is Info: every statement triggers the flush
+  // two ordinary statements; dispatch order: #0 = first statement, #1 #2 = the stored backtrace, #3 = second statement
+  for (uint32_t r = 0; r < 2; r++)
+  {
+    TransitEvent* te = teb_at(0)->back();
+    te->timestamp = 10 + r; te->macro_metadata = &MD_LOG; te->logger_base = l; te->flush_flag = nullptr;
+    *reinterpret_cast<void**>(&te->named_args) = nullptr;
+    teb_at(0)->push_back();
+  }
+  g_fault[1] = static_cast<uint8_t>(vnd_range(0, 2)); g_fault[2] = static_cast<uint8_t>(vnd_range(0, 2));
+  g_mode = 2;                                            // vh_dispatch: fault site = running dispatch count
+  for (uint32_t r = 0; r < 2; r++)
+  {
+    bool more = false, escaped = false;
+    try { more = bw()._process_lowest_timestamp_transit_event(); } catch (...) { escaped = true; }
+    VASSERT(!escaped); VASSERT(more);
+  }
+  uint32_t n100 = 0, n101 = 0, n10 = 0, n11 = 0;
+  for (uint32_t i = 0; i < NDISPMAX; i++) if (i < g_ndisp) { n100 += g_disp[i] == 100; n101 += g_disp[i] == 101; n10 += g_disp[i] == 10; n11 += g_disp[i] == 11; }
+  VASSERT(n10 == 1 && n11 == 1);                         // the ordinary statements: once each
+  VASSERT(n100 == 1 && n101 == 1);                       // every stored backtrace statement handed out exactly once: not again at the next flush, not skipped because its neighbour failed
+  VASSERT(g_notes == (g_fault[1] ? 1u : 0u) + (g_fault[2] ? 1u : 0u));
+  VWITNESS(g_fault[1] == 1 && g_fault[2] == 0);
 }
